@@ -272,7 +272,7 @@ func VH17b_recv() {
 		}
 		if w2 := reply('B', verif.Byte("later")); w2 != nil {
 			if padTo > 0 {
-				w2 = padded(w2, padTo-i, 0xc3) // same pool class, different content
+				w2 = padded(w2, padTo-1+i, 0xc3) // one byte shorter, then the same length: the pool class a released buffer of this size serves
 			}
 			p1.Deliver(w2)
 		}
